@@ -22,6 +22,7 @@ import (
 	"time"
 
 	"ergo.services/ergo/gen"
+	"ergo.services/ergo/net/registrar"
 
 	"verif/harness/actors"
 	"verif/harness/hk"
@@ -233,6 +234,12 @@ func (n note) String() string {
 }
 
 func asNote(msg any) (note, bool) {
+	n, ok := asNoteRaw(msg)
+	n.Tgt = canon(n.Tgt)
+	return n, ok
+}
+
+func asNoteRaw(msg any) (note, bool) {
 	switch m := msg.(type) {
 	case gen.MessageExitPID:
 		return note{false, m.PID, m.Reason}, true
@@ -252,6 +259,46 @@ func asNote(msg any) (note, bool) {
 		return note{true, m.Event, m.Reason}, true
 	}
 	return note{}, false
+}
+
+// canon: the canonical spelling of a local target. A registered name may be given as gen.Atom
+// (Link/Monitor(any)), gen.ProcessID with the node name or with an empty Node; an event with the
+// node name or an empty Node. Relations and notifications are compared in canonical form: whatever
+// spelling a request that returned nil used, the requester must be told when that target goes away.
+func canon(t any) any {
+	switch x := t.(type) {
+	case gen.Atom:
+		return gen.ProcessID{Name: x, Node: node.Name()}
+	case gen.ProcessID:
+		if x.Node == "" {
+			x.Node = node.Name()
+		}
+		return x
+	case gen.Event:
+		if x.Node == "" {
+			x.Node = node.Name()
+		}
+		return x
+	}
+	return t
+}
+
+// spelled returns the target in the given spelling ("" = canonical)
+func spelled(t any, spell string) any {
+	switch x := t.(type) {
+	case gen.ProcessID:
+		switch spell {
+		case "atom":
+			return x.Name
+		case "emptynode":
+			return gen.ProcessID{Name: x.Name}
+		}
+	case gen.Event:
+		if spell == "emptynode" {
+			return gen.Event{Name: x.Name}
+		}
+	}
+	return t
 }
 
 func tkind(t any) string {
@@ -588,7 +635,14 @@ func stat(name string, v int64) {
 func freshNode() {
 	old := node
 	t := newTap()
-	n, err := hk.StartNode(hk.NodeCfg{Name: hk.UniqueName("c04n"), Tweak: func(o *gen.NodeOptions) { o.TargetManager = t }})
+	// network "hidden" (no acceptor, own registrar port) instead of disabled: a request on a target that the
+	// router takes for remote must fail with an error (no route); with networking disabled it panics in GetConnection
+	n, err := hk.StartNode(hk.NodeCfg{Name: hk.UniqueName("c04n"), Tweak: func(o *gen.NodeOptions) {
+		o.TargetManager = t
+		o.Network.Mode = gen.NetworkModeHidden
+		o.Network.Cookie = "c04"
+		o.Network.Registrar = registrar.Create(registrar.Options{Port: hk.FreePort()})
+	}})
 	if err != nil {
 		fmt.Fprintln(os.Stderr, "start node:", err)
 		os.Exit(3)
@@ -613,11 +667,11 @@ func nextCase() {
 
 func main() {
 	hk.InstallHook()
-	hk.Rule("D (directed): target kind {pid, name, alias, event, meta-process alias} x {link, monitor} x cause {Kill, handler error, unregister by owner, Node.UnregisterName, meta stop / handler error} x order of the steps check(C), insert(I) of the requester and table delete(X), drain(Y), continuation(Z) of the terminator: CIXY CXIY CXYI XCY YCZ XYCI, forced by gates at link.checked, proc.unreg.* / node.unregname.deleted and at the entry/exit of TargetManager.CleanupTarget (tap); the same for the REMOVAL of an established relation (UXY XUY YUZ XYU); DeleteAlias bookkeeping (n aliases, delete #i, watch #j); LinkChild with the parent parked at proc.spawn.linked; LinkParent. Non-trivial iff the order MEASURED from hook ticks and tap records equals the intended one. " +
+	hk.Rule("D (directed): target kind {pid, name, alias, event, meta-process alias} x {link, monitor} x cause {Kill, handler error, unregister by owner, Node.UnregisterName, meta stop / handler error} x order of the steps check(C), insert(I) of the requester and table delete(X), drain(Y), continuation(Z) of the terminator: CIXY CXIY CXYI XCY YCZ XYCI, forced by gates at link.checked, proc.unreg.* / node.unregname.deleted and at the entry/exit of TargetManager.CleanupTarget (tap); the same for the REMOVAL of an established relation (UXY XUY YUZ XYU); the same with the target written as gen.Atom / with an empty Node (spelling); event subscribers parked at event.sub.added (CIsXYr, CIsXrY; first and second subscriber; unregister by owner, by the node, owner termination); DeleteAlias bookkeeping (n aliases, delete #i, watch #j); LinkChild with the parent parked at proc.spawn.linked; LinkParent. Non-trivial iff the order MEASURED from hook ticks and tap records equals the intended one. " +
 		"R (race): the same pairs raced under seeded delays at the same yield points; non-trivial iff request and disappearance really overlapped (check passed although the delete preceded the insert, or the request ran between delete and drain); key includes the measured order and the result class. F (fan): 3-8 requesters on all target kinds of one owner racing one termination; non-trivial iff >=1 request overlapped the drain of its target. " +
-		"S (history): seeded random sequential histories (<=40 operations over 3-9 trap-exit observers, each operation decided at quiescence); non-trivial iff >=1 disappearance was matched by >=1 notification of a live relation; key = set of (relation x target kind x cause) classes notified in the history.")
+		"S (history): seeded random sequential histories (<=40 operations over 3-9 trap-exit observers, targets written in random spellings, each operation decided at quiescence); non-trivial iff >=1 disappearance was matched by >=1 notification of a live relation; key = set of (relation x target kind x cause) classes notified in the history.")
 	hk.Assume("observers are act.Actor processes with SetTrapExit(true); an exit signal from the parent is not trappable in act.Actor and is observed as the terminate reason of the child")
-	hk.Assume("local targets only (one node, networking disabled); remote links/monitors go through the network layer and are not exercised here")
+	hk.Assume("local targets only (one node, network mode hidden, no peers); remote links/monitors go through the network layer and are not exercised here")
 	hk.Assume("a relation whose consumer has terminated expects nothing; consumers that die in the same step as the target (cascade through LinkParent) are not judged for other notifications of that step")
 	freshNode()
 	t0 := time.Now()
